@@ -404,6 +404,19 @@ fn classify(
     (kind, meta, sctp)
 }
 
+/// rule classes of the form "SSN=<stream>:<ssn>" match a datagram carrying a DATA chunk of that
+/// stream with that stream sequence number (B fragment or single-chunk message)
+fn matches_ssn_class(class: &str, sctp: &Option<SctpPacket>) -> bool {
+    let Some(rest) = class.strip_prefix("SSN=") else { return false };
+    let mut it = rest.split(':');
+    let (Some(st), Some(sn)) = (it.next().and_then(|x| x.parse::<u16>().ok()), it.next().and_then(|x| x.parse::<u16>().ok())) else {
+        return false;
+    };
+    sctp.as_ref()
+        .map(|p| p.data().any(|d| d.stream == st && d.ssn == sn && d.ppid != 50))
+        .unwrap_or(false)
+}
+
 fn classes_of(kind: &Kind, sctp: &Option<SctpPacket>) -> Vec<&'static str> {
     let mut v = vec![];
     match kind {
@@ -449,6 +462,7 @@ async fn wire_task(ends: WireEnds, plan: Plan, shared: Arc<WireShared>) {
     let mut fired: Vec<bool> = vec![false; plan.rules.len()];
     let mut held: BTreeMap<Dir, Vec<(usize, Bytes, Instant)>> = BTreeMap::new();
     let mut sctp_count: HashMap<Dir, u32> = HashMap::new();
+    let mut ssn_ordinals: HashMap<(Dir, String), u32> = HashMap::new();
     let mut cookie_ack_seen = false;
     let rng_base = Rng::new(plan.seed ^ 0x77AA);
 
@@ -547,9 +561,20 @@ async fn wire_task(ends: WireEnds, plan: Plan, shared: Arc<WireShared>) {
                 if fired[ri] || r.dir != dir {
                     continue;
                 }
-                if my_ord
-                    .iter()
-                    .any(|(c, o)| *c == r.class.as_str() && *o == r.ordinal)
+                let ssn_hit = r.class.starts_with("SSN=") && {
+                    if matches_ssn_class(&r.class, &sctp) {
+                        let e = ssn_ordinals.entry((dir, r.class.clone())).or_insert(0);
+                        let hit = *e == r.ordinal;
+                        *e += 1;
+                        hit
+                    } else {
+                        false
+                    }
+                };
+                if ssn_hit
+                    || my_ord
+                        .iter()
+                        .any(|(c, o)| *c == r.class.as_str() && *o == r.ordinal)
                 {
                     fired[ri] = true;
                     let label = format!("{}:{}#{}:{:?}", r.dir.name(), r.class, r.ordinal, r.action);
